@@ -30,7 +30,7 @@ META = {
             "period 1 s, lock holders counted) and a fresh opener read the store and run a continuation of 6 writes issued "
             "alternately, then a second fresh opener reads. Oracle: every view == RefStorage(acknowledged calls) or "
             "RefStorage(acknowledged + in-flight call) - the same choice for all -, no survivor call raises, every continuation "
-            "write is acknowledged and visible to all, at most one lock holder. Every script contains a record spanning several 4096-byte blocks and the cuts include 4096k-1, 4096k, 4096k+1 (run before the time budget). Held on the crash points enumerated.",
+            "write is acknowledged and visible to all, at most one lock holder. Every script contains a record spanning several 4096-byte blocks and the cuts include 4096k-1, 4096k, 4096k+1 (run before the time budget). Two further fault classes: the OS accepts only part of a record and the writer SURVIVES the call (short raw write, then EFBIG: a call that returned must be visible, one that raised wholly absent); a worker dies at every SQL boundary of the FIRST opening of a brand-new SQLite database, after which a fresh opener must work. Held on the crash points enumerated.",
     "note": "Trusted: RefStorage; os._exit keeps the page cache, so durability against MACHINE crash / power loss (the point of fsync) "
             "cannot be produced here: dropping fsync is undetectable (stated limitation). SQLite's own journalling is trusted except "
             "for what statement/commit boundaries expose. Redis: no server binary offline (not covered).",
